@@ -347,6 +347,18 @@ class OrderedMultiDict(dict, MutableMappingSequence):
     def copy(self):
         return type(self)(self)
 
+    def __reduce__(self):
+        # The default reduction of a dict subclass re-inserts the dict
+        # storage (key -> list of values) through __setitem__ on top of a
+        # shared copy of the instance dictionary, which corrupts both the
+        # copy and the original.  Rebuild from the list of pairs instead,
+        # so that copy.copy(), copy.deepcopy() and pickle all work.
+        state = {
+            k: v for k, v in vars(self).items()
+            if k != "_OrderedMultiDict__items"
+        }
+        return type(self), (list(self.__items),), state or None
+
     def insert(self, index: int, *args) -> None:
         """Inserts at the index given by *index*.
 
